@@ -34,13 +34,14 @@ func init() {
 				return true
 			}
 			param := info.Defs[fl.Type.Params.List[0].Names[0]]
+			defs := localDefs(info, fl.Body) // `str := string(b); s = append(s, str)`: a single-definition local stands for its definition
 			ast.Inspect(fl.Body, func(x ast.Node) bool {
 				call, ok := isBuiltinCall(info, exprOf(x), "append")
 				if !ok || len(call.Args) != 2 {
 					return true
 				}
 				n++
-				v := stripConv(info, call.Args[1])
+				v := stripConv(info, defs.resolve1(info, stripConv(info, defs.resolve1(info, call.Args[1]))))
 				id, isId := v.(*ast.Ident)
 				c.Check(isId && info.ObjectOf(id) == param, "R10e", "cmdEscapeCli:element-verbatim", call.Pos(), "the element appended is the callback's bytes converted to string, unchanged (got %s): anything else (trim, case, split) changes what parsing the output gives back", c.src(call.Args[1]))
 				return true
